@@ -134,7 +134,9 @@ kd == <<100>>
 ShapeSchemas31 == << Ty("object") @@ [props |-> [k |-> <<ka, kb>>, v |-> <<[sk |-> "true"], Ty("integer")>>], required |-> <<ka>>],
                      Ty("array") @@ [items |-> [sk |-> "true"], minItems |-> 1],
                      Ty("object") @@ [props |-> [k |-> <<ka, kb>>, v |-> <<Ty("string") @@ [const |-> Sv(<<120>>)], Ty("integer") @@ [minimum |-> 0]>>], required |-> <<ka, kb>>] >>
-ShapeSchemas == << Ty("object") @@ [props |-> [k |-> <<ka, kb>>, v |-> <<Ty("string") @@ [format |-> "uri-reference"], Ty("string") @@ [format |-> "regex"]>>], required |-> <<ka>>],
+ShapeSchemas == << Ty("object") @@ [props |-> [k |-> <<ka>>, v |-> <<StrLeaf(3, Absent, 4, 0)>>], required |-> <<ka>>],
+                   Ty("array") @@ [items |-> StrLeaf(3, Absent, 4, 0), minItems |-> 1],
+                   Ty("object") @@ [props |-> [k |-> <<ka, kb>>, v |-> <<Ty("string") @@ [format |-> "uri-reference"], Ty("string") @@ [format |-> "regex"]>>], required |-> <<ka>>],
                    Ty("array") @@ [items |-> Ty("object") @@ [props |-> [k |-> <<ka>>, v |-> <<Ty("integer") @@ [minimum |-> 0, maximum |-> 3]>>], required |-> <<ka>>], minItems |-> 1],
                    Ty("object") @@ [props |-> [k |-> <<ka, kb, kc, kd>>, v |-> <<Ty("integer"), Ty("string"), Ty("boolean"), Ty("integer") @@ [minimum |-> 1]>>], required |-> <<ka>>],
                    Ty("object") @@ [props |-> [k |-> <<ka, kb, kc>>, v |-> <<Ty("integer"), Ty("string") @@ [minLength |-> 1], Ty("boolean")>>]] >>
@@ -186,6 +188,9 @@ IsSchemaDesc(x) ==      \* x is a member of the schema family  (disjunction of h
   \/ \E d \in AllD, q \in NumIdx : x = D("numeric", d, NumLeaf(q))
   \/ \E d \in {"2.0", "3.0"}, q \in ExclFalseIdx : x = D("numeric", d, ExclFalseLeaf(q))
   \/ \E d \in RichD(AllD), a \in MinLenSet, b \in MaxLenSet, p \in PatIdx : x = D("string", d, StrLeaf(a, b, p, 0))
+  (* patterns that are NOT anchored at the start, with a minLength longer than their shortest match: a conforming string may match
+     only at its end / in the middle (pattern is an unanchored search) *)
+  \/ \E d \in RichD(AllD), a \in {3, 4}, b \in {Absent, 5}, p \in {2, 4, 9, 12} : x = D("string", d, StrLeaf(a, b, p, 0))
   \/ \E d \in RichD(AllD), l \in FmtLens, f \in DOMAIN Formats :
         /\ (Formats[f] \in CoreFormats \/ l = <<Absent, Absent>>)
         /\ x = D("string", d, StrLeaf(l[1], l[2], 0, f))
@@ -370,6 +375,8 @@ IsOpDesc(x) ==
         x = [MkOp("spelling", d, <<2, 1, 0>>, <<2, 1, 0>>, <<1, 2, 0>>, IF d = "2.0" THEN None3 ELSE <<2, 1, 0>>, <<2, 1, 0>>, Cfg0) EXCEPT !.spell = sp]
   \/ \E d \in OpDialects \cup {"2.0"} :       \* the same operation inside a Path Item given by $ref (lookup through the reference)
         x = [MkOp("spelling", d, <<2, 1, 0>>, <<2, 1, 0>>, <<1, 2, 0>>, None3, <<2, 1, 0>>, Cfg0) EXCEPT !.item = [ref |-> TRUE, also |-> <<"get">>]]
+  \/ \E d \in OpDialects \cap D3, loc \in {"header", "cookie"}, r \in BOOLEAN :      \* the SAME name declared in two locations with different schemas
+        x = Op("same-name", d, <<P("query", nKey, r, 4), P(loc, nKey, FALSE, 1), P(loc, IF loc = "header" THEN nH2 ELSE nC1, FALSE, 7)>>, <<>>, Cfg0)
   \/ \E d \in OpDialects :      \* three optional parameters in one location (subset selection in the coverage phase) next to a required one
         x = Op("many-optional", d, <<P("query", nQ1, TRUE, 1), P("query", nQ2, FALSE, 2), P("query", nKey, FALSE, 3), P("query", nC1, FALSE, 6)>>, <<>>, Cfg0)
   \/ Family # "c01" /\ \E ts \in {<<"string", "integer", "number", "boolean", "null", "object", "array">>, <<"string", "number", "boolean", "null", "array">>} :
